@@ -678,7 +678,7 @@ func (n *ExtendsNode) Render(w io.Writer, ctx *RenderContext) error {
 	resolvedName := templateName
 	if strings.HasPrefix(templateName, "./") || strings.HasPrefix(templateName, "../") {
 		// Get the directory of the current template
-		currentTemplate := ctx.engine.currentTemplate
+		currentTemplate := ctx.currentTemplateName()
 		if currentTemplate != "" {
 			// Extract the directory part of the current template
 			currentDir := filepath.Dir(currentTemplate)
@@ -789,7 +789,7 @@ func (n *IncludeNode) Render(w io.Writer, ctx *RenderContext) error {
 	resolvedName := templateName
 	if strings.HasPrefix(templateName, "./") || strings.HasPrefix(templateName, "../") {
 		// Get the directory of the current template
-		currentTemplate := ctx.engine.currentTemplate
+		currentTemplate := ctx.currentTemplateName()
 		if currentTemplate != "" {
 			// Extract the directory part of the current template
 			currentDir := filepath.Dir(currentTemplate)
@@ -854,7 +854,8 @@ func (n *IncludeNode) Render(w io.Writer, ctx *RenderContext) error {
 
 		// Create a new context
 		includeCtx = NewRenderContext(ctx.env, contextVars, ctx.engine)
-		// Set the template as the lastLoadedTemplate for relative path resolutionn			includeCtx.lastLoadedTemplate = template
+		// Set the template as the lastLoadedTemplate for relative path resolution
+		includeCtx.lastLoadedTemplate = template
 		defer includeCtx.Release()
 
 		// A sandbox is inherited by everything rendered inside it
@@ -1129,6 +1130,7 @@ func (n *MacroNode) CallMacro(w io.Writer, ctx *RenderContext, args ...interface
 	// Create a new context for the macro
 	macroCtx := NewRenderContext(ctx.env, nil, ctx.engine)
 	macroCtx.parent = ctx
+	macroCtx.lastLoadedTemplate = ctx.lastLoadedTemplate
 	macroCtx.sandboxed = ctx.sandboxed
 
 	// Ensure context is released even in error paths
@@ -1212,7 +1214,7 @@ func (n *ImportNode) Render(w io.Writer, ctx *RenderContext) error {
 	resolvedName := templateName
 	if strings.HasPrefix(templateName, "./") || strings.HasPrefix(templateName, "../") {
 		// Get the directory of the current template
-		currentTemplate := ctx.engine.currentTemplate
+		currentTemplate := ctx.currentTemplateName()
 		if currentTemplate != "" {
 			// Extract the directory part of the current template
 			currentDir := filepath.Dir(currentTemplate)
@@ -1239,7 +1241,8 @@ func (n *ImportNode) Render(w io.Writer, ctx *RenderContext) error {
 	// Create a new context for the imported template
 	importCtx := NewRenderContext(ctx.env, nil, ctx.engine)
 	importCtx.sandboxed = ctx.sandboxed
-	// Set the template as the lastLoadedTemplate for relative path resolutionn	importCtx.lastLoadedTemplate = template
+	// Set the template as the lastLoadedTemplate for relative path resolution
+	importCtx.lastLoadedTemplate = template
 
 	// Ensure context is released even in error paths
 	defer importCtx.Release()
@@ -1304,7 +1307,7 @@ func (n *FromImportNode) Render(w io.Writer, ctx *RenderContext) error {
 	resolvedName := templateName
 	if strings.HasPrefix(templateName, "./") || strings.HasPrefix(templateName, "../") {
 		// Get the directory of the current template
-		currentTemplate := ctx.engine.currentTemplate
+		currentTemplate := ctx.currentTemplateName()
 		if currentTemplate != "" {
 			// Extract the directory part of the current template
 			currentDir := filepath.Dir(currentTemplate)
@@ -1331,7 +1334,8 @@ func (n *FromImportNode) Render(w io.Writer, ctx *RenderContext) error {
 	// Create a new context for the imported template
 	importCtx := NewRenderContext(ctx.env, nil, ctx.engine)
 	importCtx.sandboxed = ctx.sandboxed
-	// Set the template as the lastLoadedTemplate for relative path resolutionn	importCtx.lastLoadedTemplate = template
+	// Set the template as the lastLoadedTemplate for relative path resolution
+	importCtx.lastLoadedTemplate = template
 
 	// Ensure context is released even in error paths
 	defer importCtx.Release()
